@@ -111,14 +111,14 @@ impl DiskCache {
 impl DiskCache {
     pub fn num_items(&self) -> Result<usize, ChunkCacheError> {
         #[cfg(feature = "verif")]
-        verif_hooks::point("cache.state.lock");
+        verif_hooks::point_until("cache.state.lock", || !matches!(self.state.try_lock(), Err(std::sync::TryLockError::WouldBlock)));
         let state = self.state.lock()?;
         Ok(state.num_items)
     }
 
     pub fn total_bytes(&self) -> Result<u64, ChunkCacheError> {
         #[cfg(feature = "verif")]
-        verif_hooks::point("cache.state.lock");
+        verif_hooks::point_until("cache.state.lock", || !matches!(self.state.try_lock(), Err(std::sync::TryLockError::WouldBlock)));
         let state = self.state.lock()?;
         Ok(state.total_bytes)
     }
@@ -311,7 +311,7 @@ impl DiskCache {
 
     fn find_match(&self, key: &Key, range: &ChunkRange) -> OptionResult<VerificationCell<CacheItem>, ChunkCacheError> {
         #[cfg(feature = "verif")]
-        verif_hooks::point("cache.state.lock");
+        verif_hooks::point_until("cache.state.lock", || !matches!(self.state.try_lock(), Err(std::sync::TryLockError::WouldBlock)));
         let state = self.state.lock()?;
         let Some(items) = state.inner.get(key) else {
             return Ok(None);
@@ -378,7 +378,7 @@ impl DiskCache {
         // evict items after ensuring the file write but before committing to cache state
         // to avoid removing new item.
         #[cfg(feature = "verif")]
-        verif_hooks::point("cache.state.lock");
+        verif_hooks::point_until("cache.state.lock", || !matches!(self.state.try_lock(), Err(std::sync::TryLockError::WouldBlock)));
         let mut state = self.state.lock()?;
 
         let items = state.inner.entry(key.clone()).or_default();
@@ -577,7 +577,7 @@ impl DiskCache {
     fn remove_item(&self, key: &Key, cache_item: &VerificationCell<CacheItem>) -> Result<(), ChunkCacheError> {
         {
             #[cfg(feature = "verif")]
-            verif_hooks::point("cache.state.lock");
+            verif_hooks::point_until("cache.state.lock", || !matches!(self.state.try_lock(), Err(std::sync::TryLockError::WouldBlock)));
             let mut state = self.state.lock()?;
             if let Some(items) = state.inner.get_mut(key) {
                 let idx = match index_of(items, cache_item) {
